@@ -466,7 +466,7 @@ Proof. eexists. split; [vm_compute; reflexivity|]. split; reflexivity. Qed.
 Lemma timer_ops_run w o t args tr sched :
   kern_run w o t args = Some tr ->
   timer_ops sched tr =
-  if 0 <? o_interval o then [TCreate; TCreate] ++ map TFire sched ++ [TStopRt] else map TFire sched.
+  if 0 <? o_interval o then [TCreate] ++ map TFire sched ++ [TStopRt] else map TFire sched.
 Proof.
   unfold kern_run. intros H.
   destruct (o_setup o) as [s|].
@@ -510,31 +510,8 @@ Proof.
   replace (tstep (mkts [] None) (TFire i)) with (mkts [] None); [exact IH|]. reflexivity.
 Qed.
 
-(* with -i: whatever fires while the program runs, exactly one Timer thread is
-   still pending when main has returned (the first RepeatedTimer, which the
-   second assignment to `rt` made unreachable) *)
-Theorem timer_leaks_with_interval w o t args tr sched :
-  kern_run w o t args = Some tr -> 0 < o_interval o ->
-  live_after_main sched tr = 1%nat.
-Proof.
-  intros H Hi. unfold live_after_main. rewrite (timer_ops_run _ _ _ _ _ sched H).
-  destruct (0 <? o_interval o) eqn:E; [|lia].
-  unfold trun. rewrite !fold_left_app. cbn [fold_left tstep app length ts_objs].
-  change (mkts [rt_new; rt_new] (Some 1%nat)) with (mkts [one_live; one_live] (Some 1%nat)).
-  rewrite fires_two. reflexivity.
-Qed.
-
-Theorem no_timer_without_interval w o t args tr sched :
-  kern_run w o t args = Some tr -> o_interval o <= 0 ->
-  live_after_main sched tr = 0%nat.
-Proof.
-  intros H Hi. unfold live_after_main. rewrite (timer_ops_run _ _ _ _ _ sched H).
-  destruct (0 <? o_interval o) eqn:E; [lia|].
-  unfold trun. rewrite fires_none. reflexivity.
-Qed.
-
-(* the repair is sound in the model: creating the timer once and stopping it
-   leaves nothing behind, whatever fired in between *)
+(* the repaired bookkeeping: creating the timer once and stopping it leaves nothing
+   behind, whatever fired in between *)
 Theorem single_timer_stops sched :
   live_threads (trun ([TCreate] ++ map TFire sched ++ [TStopRt])) = 0%nat.
 Proof.
@@ -543,16 +520,35 @@ Proof.
   rewrite fires_one. reflexivity.
 Qed.
 
-Theorem no_helper_thread_after_run_refuted :
-  exists w o t args tr,
-    kern_run w o t args = Some tr /\ forall sched, live_after_main sched tr <> 0%nat.
+(* what the code did before the repair (two constructions, the local `rt` rebound,
+   one stop): exactly one Timer is left for every schedule - kept so that a
+   regression is explained by a theorem *)
+Theorem double_creation_leaks sched :
+  live_threads (trun ([TCreate; TCreate] ++ map TFire sched ++ [TStopRt])) = 1%nat.
 Proof.
-  exists w_ex, o_interval1, (TScript (rel ["prog.py"])), []. eexists.
-  split; [vm_compute; reflexivity|].
-  intros sched.
-  erewrite timer_leaks_with_interval with (o := o_interval1) (w := w_ex) (t := TScript (rel ["prog.py"])) (args := []);
-    [discriminate|vm_compute; reflexivity|reflexivity].
+  unfold trun. rewrite !fold_left_app. cbn [fold_left tstep app length ts_objs].
+  change (mkts [rt_new; rt_new] (Some 1%nat)) with (mkts [one_live; one_live] (Some 1%nat)).
+  rewrite fires_two. reflexivity.
 Qed.
+
+(* "kernprof terminates promptly": for EVERY option record (with or without -i),
+   target, argument list and schedule of timer firings during the program, no
+   Timer thread of a RepeatedTimer is pending when main has returned *)
+Theorem no_helper_thread_after_run w o t args tr sched :
+  kern_run w o t args = Some tr -> live_after_main sched tr = 0%nat.
+Proof.
+  intros H. unfold live_after_main. rewrite (timer_ops_run _ _ _ _ _ sched H).
+  destruct (0 <? o_interval o).
+  - apply single_timer_stops.
+  - unfold trun. rewrite fires_none. reflexivity.
+Qed.
+
+Example timer_nonvacuous :
+  exists tr, kern_run w_ex o_interval1 (TScript (rel ["prog.py"])) [] = Some tr
+             /\ timer_ops [0%nat; 0%nat] tr = [TCreate; TFire 0; TFire 0; TStopRt]
+             /\ live_threads (trun [TCreate; TFire 0; TFire 0]) = 1%nat
+             /\ live_after_main [0%nat; 0%nat] tr = 0%nat.
+Proof. eexists. split; [vm_compute; reflexivity|]. repeat split. Qed.
 
 (* ---- executable comparison used by the case shards --------------------------------- *)
 Definition oobs_eqb (a b : option obs) : bool := opt_eqb obs_eqb a b.
